@@ -366,6 +366,11 @@ func runC06(tier string, seed uint64) {
 					var m []KV
 					if rng.Bool() {
 						m = []KV{{"X-Amz-Meta-Up", fmt.Sprint(j)}, {"Content-Type", "application/x-test"}}
+						if rng.Intn(3) == 0 {
+							// a header given with an empty value is given: the completed object carries it, not what the
+							// object it replaces had under that name
+							m = []KV{{"X-Amz-Meta-Up", ""}, {"X-Amz-Meta-Note", []string{"", "n"}[rng.Intn(2)]}}
+						}
 					}
 					id := s.Initiate(b, k, m)
 					if id != "" {
